@@ -6,6 +6,7 @@ for d in seeded/C*; do
   id=$(basename $d)
   chk=$(echo $id | cut -d- -f1)
   cp $d/patch.diff /tmp/seeded-$id.diff
+  if grep -q judged_outside_the_statement $d/meta.json 2>/dev/null; then echo "seeded $id: not claimed (outside the statement, see meta.json)"; rm -f /tmp/seeded-$id.diff; continue; fi
   tools/mutant.sh /tmp/seeded-$id.diff $chk | grep check
   rm -f /tmp/seeded-$id.diff
 done
